@@ -900,3 +900,20 @@ FIXED.append(
         "start": "Stmt",
     }
 )
+
+
+FIXED.append(
+    {  # sized lists (both size refinements, minimum >= 1, minimum < maximum) whose ELEMENTS can be impossible to synthesise:
+        # a dependent refinement that offers no value for some sibling values (varrange_n with n == 0). Such a production
+        # cannot be completed with that sibling value - what the library delivers must still honour the declared sizes
+        "name": "fx_dep_in_sized_lists",
+        "abstracts": [{"name": "Stmt", "parent": None, "style": "abc"}],
+        "prods": [
+            {"name": "Skip", "parent": "Stmt", "fields": []},
+            {"name": "Uses", "parent": "Stmt", "fields": [["n", ["ann", ["int"], ["IntRange", 0, 2]]], ["uses", ["ann", ["list", ["dep", ["str"], "n", "varrange_n", 0]], ["LSBWLO", 1, 3]]]]},
+            {"name": "Uses2", "parent": "Stmt", "fields": [["n", ["ann", ["int"], ["IntRange", 0, 1]]], ["uses", ["ann", ["list", ["dep", ["str"], "n", "varrange_n", 0]], ["ListSizeBetween", 2, 3]]]]},
+            {"name": "Seq", "parent": "Stmt", "fields": [["a", ["ref", "Stmt"]], ["b", ["ref", "Stmt"]]]},
+        ],
+        "start": "Stmt",
+    }
+)
